@@ -79,6 +79,16 @@ func nonBoolean(v *big.Int, n int, alias *big.Int, j int, m *big.Int) []*big.Int
 	return out
 }
 
+// nonBooleanSplit returns the canonical bits of v with digit j raised by 2 and
+// digit j+1 lowered by 1 (mod m): the digits still recompose to v but digit j is
+// 2 or 3. Requires 0 <= j < n-1.
+func nonBooleanSplit(v *big.Int, n, j int, m *big.Int) []*big.Int {
+	out := rmon.BitsOf(v, n)
+	out[j] = new(big.Int).Add(out[j], big.NewInt(2))
+	out[j+1] = new(big.Int).Mod(new(big.Int).Sub(out[j+1], big.NewInt(1)), m)
+	return out
+}
+
 // indexStrategies forge the index decomposition of width n for values that do
 // not fit n bits: the low bits spell the aliased leaf, one digit carries the rest.
 func indexStrategies(n int, m *big.Int) []strategy {
